@@ -382,3 +382,145 @@ Print Assumptions C04_block_blob_total.
 Print Assumptions C04_block_id_total.
 Print Assumptions C04_ring_guard.
 Print Assumptions C04_text_parsers_total.
+
+(* ==== (e) output scanning and key recovery on parsed objects (Model/Scan.v; proofs in Proofs/ScanTotal.v) =======================
+   The model of scanning has an explicit `SPanic` / `Panic` outcome for every unwrap / expect on its path: PublicKey::point()
+   (`.decompress().expect(..)`) inside KeyGenerator::from_key, SubKeyChecker::{new, check}, the PublicKey operators, and
+   `H.point.decompress().unwrap()` inside EcdhInfo::open_commitment.  The transaction prefix and the RingCT base below are
+   ARBITRARY values of the model types (whatever the decoders produce, and more): check_outputs_with re-parses the raw extra
+   with `raw_try_parse valid_pk_b` (total, C16), so the transaction keys it uses are accepted keys; output target keys that are
+   not accepted are filtered by as_one_time_key; missing / undecodable RingCT data are the errors MissingEcdhInfo,
+   MissingCommitment, InvalidCommitment.  For EVERY instance of the group laws and every pair of hashes.
+   The one unwrap the laws cannot exclude is the decompression of the CONSTANT H (an abstract `decompress` may reject those 32
+   bytes): it is a hypothesis, true of the executable instance (C04_ex_H_ed25519), needed (C04_ex_H_needed) and consistent
+   with the laws (C04_ex_scan_hyps). *)
+From MRS Require Import Proofs.ScanTotal.
+Open Scope N_scope.
+
+(* 1. scanning with the view pair (v, S), S an accepted public key, any four range bounds (also reversed / empty ranges): the
+      table is built (SubKeyChecker::new) and none of the entry points returns SPanic *)
+Theorem C04_scan_outputs_no_panic_partial : forall (E : EdOps) (LW : EdLaws E) (Hs : hs_fun) (Hb : bytes -> bytes) (v : Z) (S : bytes),
+  pk_from_slice S = Ok S -> (exists Hp : point, decompress Ed25519.H_bytes = Some Hp) ->
+  forall maj_lo maj_hi min_lo min_hi : N,
+  (exists tb, checker_new Hs v S maj_lo maj_hi min_lo min_hi = Ok tb) /\
+  (forall p rct, (exists l, prefix_check_outputs Hs Hb v S maj_lo maj_hi min_lo min_hi p rct = SOk l) \/
+                 (exists e, prefix_check_outputs Hs Hb v S maj_lo maj_hi min_lo min_hi p rct = SErr e)) /\
+  (forall t, (exists l, tx_check_outputs Hs Hb v S maj_lo maj_hi min_lo min_hi t = SOk l) \/
+             (exists e, tx_check_outputs Hs Hb v S maj_lo maj_hi min_lo min_hi t = SErr e)) /\
+  (forall tb p rct, checker_new Hs v S maj_lo maj_hi min_lo min_hi = Ok tb ->
+     (exists l, check_outputs_with Hs Hb tb v S p rct = SOk l) \/ (exists e, check_outputs_with Hs Hb tb v S p rct = SErr e)) /\
+  (forall tb t, checker_new Hs v S maj_lo maj_hi min_lo min_hi = Ok tb ->
+     (exists l, tx_check_outputs_with Hs Hb tb v S t = SOk l) \/ (exists e, tx_check_outputs_with Hs Hb tb v S t = SErr e)).
+Proof. intros E LW Hs Hb. exact (scan_entry_points_no_panic Hs Hb). Qed.
+
+(* ... in fact check_outputs_with does not panic for ANY table and ANY stored spend-key bytes (a ViewPair has public fields): on
+   this path the spend key is only carried along, and the table is only looked up *)
+Theorem C04_scan_any_table_no_panic_partial : forall (E : EdOps) (LW : EdLaws E) (Hs : hs_fun) (Hb : bytes -> bytes),
+  (exists Hp : point, decompress Ed25519.H_bytes = Some Hp) ->
+  forall (tb : table) (v : Z) (S : bytes),
+  (forall p rct, (exists l, check_outputs_with Hs Hb tb v S p rct = SOk l) \/ (exists e, check_outputs_with Hs Hb tb v S p rct = SErr e)) /\
+  (forall t, (exists l, tx_check_outputs_with Hs Hb tb v S t = SOk l) \/ (exists e, tx_check_outputs_with Hs Hb tb v S t = SErr e)).
+Proof. intros E LW Hs Hb. exact (scan_any_table_no_panic Hs Hb). Qed.
+
+(* 2. operations on the OwnedTxOut values a scan returns.  The transaction key stored in every returned value is an accepted key;
+      hence recover_key with ANY key pair (v', s') - the scanning wallet's or not - returns Ok (KeyRecoverer::new cannot hit the
+      expect), and with the scanning wallet's pair (S = s*G) the value is the secret of the output's one-time key (C09).
+      amount() / blinding_factor() / commitment() are total by construction (owned_amount / owned_blinding_factor /
+      owned_commitment are plain `option`-valued Gallina functions without a Panic outcome): nothing to prove. *)
+Theorem C04_owned_ops_total_partial : forall (E : EdOps) (LW : EdLaws E) (Hs : hs_fun) (Hb : bytes -> bytes),
+  (forall tb (v : Z) S p rct l w, check_outputs_with Hs Hb tb v S p rct = SOk l -> In w l ->
+     pk_from_slice (ow_key w) = Ok (ow_key w) /\
+     forall v' s' : Z, exists g, from_key v' (pk_from_priv s') (ow_key w) = Ok g /\
+                             owned_recover_key Hs v' s' w = Ok (recover Hs v' s' g (ow_pos w) (ow_index w))) /\
+  (forall (v : Z) S (a b c d : N) p rct l w, prefix_check_outputs Hs Hb v S a b c d p rct = SOk l -> In w l ->
+     pk_from_slice (ow_key w) = Ok (ow_key w) /\
+     forall v' s' : Z, exists g, from_key v' (pk_from_priv s') (ow_key w) = Ok g /\
+                             owned_recover_key Hs v' s' w = Ok (recover Hs v' s' g (ow_pos w) (ow_index w))) /\
+  (forall (v s : Z) (a b c d : N) p rct l w, prefix_check_outputs Hs Hb v (pk_from_priv s) a b c d p rct = SOk l -> In w l ->
+     exists x, owned_recover_key Hs v s w = Ok x /\ as_one_time_key (o_target (ow_out w)) = Some (pk_from_priv x)).
+Proof. intros E LW Hs Hb. exact (owned_ops_total Hs Hb). Qed.
+
+(* 3. TxOutTarget::check_view_tag is a total boolean function of (target, derivation, position) for every position: the model
+      takes the position modulo 2^64 (`index as u64` of a usize), so positions >= 2^64 wrap; an untagged target passes; a tag
+      that does not fit a byte never matches *)
+Theorem C04_view_tag_total : forall (Hb : bytes -> bytes) (t : target) (rv : bytes) (i : N),
+  check_view_tag Hb t rv i = check_view_tag Hb t rv (i mod 2 ^ 64) /\
+  check_view_tag Hb t rv i =
+    match t with
+    | TKey _ => true
+    | TTagged _ tag => tag =? b2n (hd x00 (Hb (view_tag_salt ++ rv ++ enc_varint (i mod 2 ^ 64))))
+    end /\
+  (forall k tag, t = TTagged k tag -> 256 <= tag -> check_view_tag Hb t rv i = false).
+Proof. exact view_tag_total. Qed.
+
+(* 4. SubKeyChecker::check / check_with_key_generator on an accepted output key (and an accepted transaction key) never panic,
+      for any table, any generator, any position *)
+Theorem C04_subkey_check_no_panic_partial : forall (E : EdOps) (LW : EdLaws E) (Hs : hs_fun) (tb : table) (v : Z) (S : bytes) (i : N) (P K : bytes),
+  pk_from_slice P = Ok P ->
+  (forall g, exists r, check_with_key_generator Hs tb g i P = Ok r) /\
+  (pk_from_slice K = Ok K -> exists r, checker_check Hs tb v S i P K = Ok r).
+Proof. intros E LW Hs. exact (subkey_check_total Hs). Qed.
+
+(* non-vacuity of the hypotheses of 1.: an instance of the laws (Z/l with a lenient decompress) in which H decodes, with an accepted key *)
+Example C04_ex_scan_hyps : exists (E : EdOps) (LW : EdLaws E) (S : bytes),
+  pk_from_slice S = Ok S /\ (exists Hp : point, decompress Ed25519.H_bytes = Some Hp).
+Proof. exact scan_hyps_satisfiable. Qed.
+
+(* the hypothesis on H holds in the executable instance (curve25519-dalek semantics of decompress) *)
+Example C04_ex_H_ed25519 : exists Hp : @point ed25519_ops, @decompress ed25519_ops Ed25519.H_bytes = Some Hp.
+Proof. exact (proj2 ed25519_H_decompresses). Qed.
+
+(* ... and it is needed: the toy instance of the laws of Proofs/EdToy.v rejects H_bytes, and its scan of a transaction with a
+   RingCT base reaches `H.point.decompress().unwrap()` (the same transaction without the base scans fine) *)
+Example C04_ex_H_needed :
+  @decompress toy_ops Ed25519.H_bytes = None /\
+  @prefix_check_outputs toy_ops toyHs toyHb toy_v toy_Sb 0 1 0 2 toy_prefix (Some toy_rct) = SPanic /\
+  (exists l, @prefix_check_outputs toy_ops toyHs toyHb toy_v toy_Sb 0 1 0 2 toy_prefix None = SOk l).
+Proof. exact scan_panics_without_H. Qed.
+
+Check C04_scan_outputs_no_panic_partial : forall (E : EdOps) (LW : EdLaws E) (Hs : hs_fun) (Hb : bytes -> bytes) (v : Z) (S : bytes),
+  pk_from_slice S = Ok S -> (exists Hp : point, decompress Ed25519.H_bytes = Some Hp) ->
+  forall maj_lo maj_hi min_lo min_hi : N,
+  (exists tb, checker_new Hs v S maj_lo maj_hi min_lo min_hi = Ok tb) /\
+  (forall p rct, (exists l, prefix_check_outputs Hs Hb v S maj_lo maj_hi min_lo min_hi p rct = SOk l) \/
+                 (exists e, prefix_check_outputs Hs Hb v S maj_lo maj_hi min_lo min_hi p rct = SErr e)) /\
+  (forall t, (exists l, tx_check_outputs Hs Hb v S maj_lo maj_hi min_lo min_hi t = SOk l) \/
+             (exists e, tx_check_outputs Hs Hb v S maj_lo maj_hi min_lo min_hi t = SErr e)) /\
+  (forall tb p rct, checker_new Hs v S maj_lo maj_hi min_lo min_hi = Ok tb ->
+     (exists l, check_outputs_with Hs Hb tb v S p rct = SOk l) \/ (exists e, check_outputs_with Hs Hb tb v S p rct = SErr e)) /\
+  (forall tb t, checker_new Hs v S maj_lo maj_hi min_lo min_hi = Ok tb ->
+     (exists l, tx_check_outputs_with Hs Hb tb v S t = SOk l) \/ (exists e, tx_check_outputs_with Hs Hb tb v S t = SErr e)).
+Check C04_scan_any_table_no_panic_partial : forall (E : EdOps) (LW : EdLaws E) (Hs : hs_fun) (Hb : bytes -> bytes),
+  (exists Hp : point, decompress Ed25519.H_bytes = Some Hp) ->
+  forall (tb : table) (v : Z) (S : bytes),
+  (forall p rct, (exists l, check_outputs_with Hs Hb tb v S p rct = SOk l) \/ (exists e, check_outputs_with Hs Hb tb v S p rct = SErr e)) /\
+  (forall t, (exists l, tx_check_outputs_with Hs Hb tb v S t = SOk l) \/ (exists e, tx_check_outputs_with Hs Hb tb v S t = SErr e)).
+Check C04_owned_ops_total_partial : forall (E : EdOps) (LW : EdLaws E) (Hs : hs_fun) (Hb : bytes -> bytes),
+  (forall tb (v : Z) S p rct l w, check_outputs_with Hs Hb tb v S p rct = SOk l -> In w l ->
+     pk_from_slice (ow_key w) = Ok (ow_key w) /\
+     forall v' s' : Z, exists g, from_key v' (pk_from_priv s') (ow_key w) = Ok g /\
+                             owned_recover_key Hs v' s' w = Ok (recover Hs v' s' g (ow_pos w) (ow_index w))) /\
+  (forall (v : Z) S (a b c d : N) p rct l w, prefix_check_outputs Hs Hb v S a b c d p rct = SOk l -> In w l ->
+     pk_from_slice (ow_key w) = Ok (ow_key w) /\
+     forall v' s' : Z, exists g, from_key v' (pk_from_priv s') (ow_key w) = Ok g /\
+                             owned_recover_key Hs v' s' w = Ok (recover Hs v' s' g (ow_pos w) (ow_index w))) /\
+  (forall (v s : Z) (a b c d : N) p rct l w, prefix_check_outputs Hs Hb v (pk_from_priv s) a b c d p rct = SOk l -> In w l ->
+     exists x, owned_recover_key Hs v s w = Ok x /\ as_one_time_key (o_target (ow_out w)) = Some (pk_from_priv x)).
+Check C04_view_tag_total : forall (Hb : bytes -> bytes) (t : target) (rv : bytes) (i : N),
+  check_view_tag Hb t rv i = check_view_tag Hb t rv (i mod 2 ^ 64) /\
+  check_view_tag Hb t rv i =
+    match t with
+    | TKey _ => true
+    | TTagged _ tag => tag =? b2n (hd x00 (Hb (view_tag_salt ++ rv ++ enc_varint (i mod 2 ^ 64))))
+    end /\
+  (forall k tag, t = TTagged k tag -> 256 <= tag -> check_view_tag Hb t rv i = false).
+Check C04_subkey_check_no_panic_partial : forall (E : EdOps) (LW : EdLaws E) (Hs : hs_fun) (tb : table) (v : Z) (S : bytes) (i : N) (P K : bytes),
+  pk_from_slice P = Ok P ->
+  (forall g, exists r, check_with_key_generator Hs tb g i P = Ok r) /\
+  (pk_from_slice K = Ok K -> exists r, checker_check Hs tb v S i P K = Ok r).
+
+Print Assumptions C04_scan_outputs_no_panic_partial.
+Print Assumptions C04_scan_any_table_no_panic_partial.
+Print Assumptions C04_owned_ops_total_partial.
+Print Assumptions C04_view_tag_total.
+Print Assumptions C04_subkey_check_no_panic_partial.
